@@ -150,6 +150,11 @@ def dayNames : List Str := Gen.Dates.rfc822DayNames.map String.toList
 
 def afterLastComma (s : Str) : Str := (s.reverse.takeWhile (· != ',')).reverse
 
+/-- the two-digit-year window (rfc822.py:117-121): keyed on how the year was WRITTEN (`len(parts[2]) <= 2`),
+not on its value -/
+def windowYear (written : Str) (year0 : Int) : Int :=
+  if written.length ≤ 2 then year0 + (if year0 < 90 then 2000 else 1900) else year0
+
 def parseRfc822 (date : Str) : Option Tuple9 :=
   let parts0 := splitWs (lowerS date)
   let parts1 := if parts0.length < 5 then parts0 ++ ["00:00:00".toList, "0000".toList] else parts0
@@ -179,7 +184,7 @@ def parseRfc822 (date : Str) : Option Tuple9 :=
         match pyInt q2 with
         | none => none
         | some year0 =>
-          let year := if q2.length ≤ 2 then year0 + (if year0 < 90 then 2000 else 1900) else year0
+          let year := windowYear q2 year0
           let tp0 := splitOn ':' q3
           let tp := tp0 ++ List.replicate (3 - tp0.length) ['0']
           match tp with
